@@ -6,7 +6,6 @@ sys.path.insert(0, HERE)
 props = [json.loads(l) for l in open(os.path.join(HERE, "properties.jsonl"))]
 NA = {
     "C12": "every clause is about real-valued results over a continuum (B-spline / cardinal-spline values, partition of unity, zero training mean) or data-dependent knot selection; no sound static argument in reach bounds floating-point values. The one structural clause (recorded knots/bounds are read before the data is consulted) is decided under C04 (DESIGN §6).",
-    "C15": "a family of metamorphic statements about the output of a character-level state machine (tokenize) over all strings and re-spacings; deciding it means exploring that machine's state space (model checking / generation), not static analysis of the program text. The normaliser clause is decided under C04.R4 (DESIGN §6).",
 }
 checks, na, served = [], [], []
 for p in props:
